@@ -59,6 +59,8 @@ WHITELIST = [
     ("apply_spans_index_of_min", ["arr", "arr", "opt_arr"]),
     ("apply_spans_index_of_max", ["arr", "arr", "opt_arr"]),
     ("_get_spans_for_2_fields_by_spans", ["arr", "arr"]),
+    ("apply_filter_to_index_values", ["barr", "arr", "arr"]),
+    ("apply_indices_to_index_values", ["arr", "arr", "arr"]),
 ]
 
 LEAN_T = {"int": "Int", "bool": "Bool", "arr": "List Int", "barr": "List Bool", "opt_arr": "Option (List Int)"}
